@@ -34,6 +34,7 @@
 -/
 import Hs.Lemmas.NsSpec
 import Hs.Lemmas.NsAssoc
+import Hs.Lemmas.NsProtos
 namespace Hs.C13
 open Hs Hs.Ns Relation
 
@@ -734,6 +735,72 @@ example : entityCandidates libFuel libX.ns [['a','h','u'], ['e','q','u','i','p']
 example : tagOnNames libX = [['e','q','u','i','p'], ['a','h','u'], ['n','o','w','h','e','r','e']] ∧
     tagOnDefs libX = [(['f','o','o'], [['e','q','u','i','p']]), (['b','a','r'], [['a','h','u']])] ∧
     conjuncts libX = [['a','h','u','-','f','o','o']] := by decide +kernel
+end
+
+/-! ## Part 3: `protos` (Hs.Model.NsProtos)
+
+For EVERY namespace, every set of defs with a `children` tag and every parent dict: the prototypes are exactly
+the children of the defs that the parent's tag names name, each merged with the parent's own non-Null values
+under the tags that fit one of the def's `childrenFlatten` symbols; in a prototype the flattened value of a tag
+wins over the child's own. -/
+
+open Hs.NsA in
+/-- `protos(parent)`: which dicts come out -/
+theorem protos_spec (fuel : Nat) (ns : Ns) (pd : ProtoDefs) (parent p : PDict) :
+    p ∈ protos fuel ns pd parent ↔
+      ∃ name v spec cs c, (name, v) ∈ parent ∧ plookup pd name = some spec ∧ spec.children = some cs ∧ c ∈ cs ∧
+        p = mergeInto (flattened fuel ns spec.flatten parent) c := by
+  rw [mem_protos]
+  constructor
+  · rintro ⟨name, v, h1, h2⟩
+    obtain ⟨spec, cs, h3, h4, c, h5, h6⟩ := (mem_protosFromDef fuel ns pd parent name p).mp h2
+    exact ⟨name, v, spec, cs, c, h1, h3, h4, h5, h6⟩
+  · rintro ⟨name, v, spec, cs, c, h1, h3, h4, h5, h6⟩
+    exact ⟨name, v, h1, (mem_protosFromDef fuel ns pd parent name p).mpr ⟨spec, cs, h3, h4, c, h5, h6⟩⟩
+
+open Hs.NsA in
+/-- the flattened values: the parent's entries that are not Null and whose tag fits one of the symbols -/
+theorem flattened_spec (fuel : Nat) (ns : Ns) (fl : List Name) (parent : PDict) (k : Name) (v : Nat) :
+    (k, v) ∈ flattened fuel ns fl parent ↔
+      (k, v) ∈ parent ∧ v ≠ 0 ∧ ∃ sym, sym ∈ fl ∧ fitsB fuel ns k sym = true :=
+  mem_flattened fuel ns fl parent k v
+
+open Hs.NsA in
+/-- a tag of a prototype: the flattened value if there is one, the child's own otherwise -/
+theorem proto_tag (f c : PDict) (k : Name) :
+    pget (mergeInto f c) k = (pget f k).or (pget c k) :=
+  pget_mergeInto f c k
+
+open Hs.NsA in
+/-- a parent none of whose tags names a def with children has no prototypes -/
+theorem protos_none (fuel : Nat) (ns : Ns) (pd : ProtoDefs) (parent : PDict)
+    (h : ∀ kv, kv ∈ parent → plookup pd kv.1 = none) : protos fuel ns pd parent = [] := by
+  apply List.eq_nil_iff_forall_not_mem.mpr
+  intro p hp
+  obtain ⟨name, v, spec, cs, c, h1, h3, _⟩ := (protos_spec fuel ns pd parent p).mp hp
+  have := h (name, v) h1
+  simp only at this
+  rw [this] at h3
+  cases h3
+
+open Hs.NsA in
+/-- a def whose `children` tag is neither a Str nor a List contributes nothing -/
+theorem protos_bad_children (fuel : Nat) (ns : Ns) (pd : ProtoDefs) (parent : PDict) (name : Name) (spec : ChildSpec)
+    (h1 : plookup pd name = some spec) (h2 : spec.children = none) :
+    protosFromDef fuel ns pd parent name = [] := by
+  simp [protosFromDef, h1, h2]
+
+section
+open Hs.NsA
+/-- on the grid of part 2: `ahu` has two children and flattens what fits `equip`; the parent `{ahu, equip:7, foo:9, z:Null}` -/
+def exPd : ProtoDefs :=
+  [ (['a','h','u'], { children := some [[(['f','a','n'], 1)], [(['e','q','u','i','p'], 2), (['d','i','s'], 3)]],
+                      flatten := [['e','q','u','i','p']] }),
+    (['f','o','o'], { children := none, flatten := [] }) ]
+def exParent : PDict := [(['a','h','u'], 1), (['e','q','u','i','p'], 7), (['f','o','o'], 9), (['z'], 0)]
+example : protos libFuel libX.ns exPd exParent =
+    [ [(['f','a','n'], 1), (['e','q','u','i','p'], 7), (['a','h','u'], 1)],
+      [(['e','q','u','i','p'], 7), (['d','i','s'], 3), (['a','h','u'], 1)] ] := by decide +kernel
 end
 
 /-! The fuel bound is attained: below the undefined symbol `nowhere` hang both defs of this grid, the subtype
